@@ -204,6 +204,30 @@ theorem vn_rules (s : GateState) (p : PacketSummary) (hk : p.kind = .vn) :
 example : (gate (GateState.newClient [1] 5 [5, 1] false) { kind := .vn, vnVersions := [7, 1] }).2 = .recreate 1 := by decide
 example : (gate (GateState.newClient [1] 5 [5, 1] false) { kind := .vn, vnVersions := [7, 9] }).2 = .fail := by decide
 
+/-- "never after versionNegotiated", for the connection `doDial` really creates: both `Transport.doDial` and
+`UTransport.doDial` dial again after a Version Negotiation packet with `hasNegotiatedVersion = <the argument
+in the source, regenerated>`; with it, the re-created connection drops EVERY Version Negotiation packet
+unchanged, and along every sequence of datagrams it is never re-created again and never fails with
+VersionNegotiationError (so a dial makes at most two connection attempts). If either call site stops
+passing `true`, this theorem no longer compiles. -/
+theorem no_effect_after_version_negotiated (spec : Bool) (dcid : CID) (v : Nat) (sup : List Nat) :
+    (∀ p, p.kind = .vn → (gate (GateState.recreated spec dcid v sup) p).1 = GateState.recreated spec dcid v sup ∧
+        ∃ r, (gate (GateState.recreated spec dcid v sup) p).2 = .drop r) ∧
+    (∀ ds, ∀ a ∈ (runDatagrams (GateState.recreated spec dcid v sup) ds).2, (∀ w, a ≠ .recreate w) ∧ a ≠ .fail) := by
+  have h0 : (GateState.recreated spec dcid v sup).versionNegotiated = true := by
+    cases spec <;>
+      simp [GateState.recreated, GateState.newClient, recreateMarksNegotiated,
+        Uquic.Gen.Gate.recreateArgUTransport, Uquic.Gen.Gate.recreateArgTransport]
+  constructor
+  · intro p hk
+    exact (gate_vn_mono _ p h0).2.2.2 hk
+  · intro ds
+    exact runDatagrams_actions (fun t => t.versionNegotiated = true) (fun a => (∀ w, a ≠ .recreate w) ∧ a ≠ .fail)
+      (fun t p h => (gate_vn_mono t p h).1) (fun t p h => ⟨(gate_vn_mono t p h).2.1, (gate_vn_mono t p h).2.2.1⟩)
+      (by intro r; simp) (by simp) ds _ h0
+
+example : (gate (GateState.recreated true [1] 1 [5, 1]) { kind := .vn, vnVersions := [5, 9] }).2 = .drop .unexpectedPacket := by decide
+
 /-! ## 4. what cannot be decrypted cannot do anything -/
 
 /-- A long- or short-header packet that the AEAD does not open (everything an attacker without the keys
